@@ -89,7 +89,9 @@ def multiline_part(chk, tier):
     if res.rc != 0:
         raise vlib.ToolError("TLC failed on C16_ml:\n" + res.tail(40))
     chk.add_tlc(res)
-    recs = [r for r in res.emits() if r["scn"]["stopAt"] or r["scn"]["errAt"]]
+    allrecs = res.emits()
+    ml_maxcount(chk, allrecs, tier)
+    recs = [r for r in allrecs if r["scn"]["stopAt"] or r["scn"]["errAt"]]
     if tier == "quick":
         recs = [r for i, r in enumerate(recs) if i % 3 == vlib.seed() % 3]
     jobs = [c13.to_job(r, "slice" if i % 2 else "reader", {"fallback": 1}) for i, r in enumerate(recs)]
@@ -125,5 +127,88 @@ def multiline_part(chk, tier):
                 chk.nontrivial_case(json.dumps([r["scn"]["u"], r["scn"]["o"], r["scn"]["cfg"], r["scn"]["inp"], r["scn"]["stopAt"], r["scn"]["errAt"]], sort_keys=True))
 
 
+def ml_maxcount(chk, recs_unused, tier):
+    """rg -U -c -m N on genuinely multi-line searches.  In multi-line mode the count is the number of MATCHES and a block
+    of matches on touching lines is delivered as one result, so the limit may be overshot inside the block that reaches
+    it, but nothing beyond that block may be counted: with `total` matches and the N-th one lying in a block whose last
+    match is the E-th, min(N, total) <= count <= E.  (Matches and their lines: GrepModelML, cfg C09_ml.)"""
+    import json
+    import regexrender as rr
+    import rgrun
+    res = vlib.tlc("regex/MCGrepML", "C09_ml", workers=12, timeout=3600)
+    if res.rc != 0:
+        raise vlib.ToolError("TLC failed on C09_ml:\n" + res.tail(40))
+    chk.add_tlc(res)
+    sel = [r for r in res.emits() if not r["scn"]["cfg"]["inv"] and not r["scn"]["cfg"]["pass"] and len(r["ms"]) >= 2
+           and all(m[0] < m[1] for m in r["ms"]) and not r["scn"]["o"]["word"] and not r["scn"]["o"]["line"]]
+    if tier == "quick":
+        sel = [r for i, r in enumerate(sel) if i % 2 == vlib.seed() % 2]
+    scr = rgrun.Scratch("c16ml")
+    try:
+        jobs, meta = [], []
+        for k, r in enumerate(sel):
+            inp = rr.sym_bytes(r["scn"]["inp"])
+            # (the pattern must be one rg searches in multi-line mode: some match holds a line feed)
+            if not any(b"\n" in inp[a:b] for a, b in r["ms"]):
+                continue
+            f = scr.write("d%d/f%d" % (k % 50, k), inp)
+            for n in (1, 2):
+                a = ["--no-config", "--color", "never", "-j1", "-U", "-c", "-m", str(n)] + (["--multiline-dotall"] if r["scn"]["o"]["dotall"] else [])
+                jobs.append({"args": a + ["-e", rr.render(r["scn"]["u"]), f]})
+                meta.append((r, inp, n))
+        outs = rgrun.run_many(jobs)
+        chk.evaluations += len(jobs)
+        for (r, inp, n), (rc, so, se), j in zip(meta, outs, jobs):
+            ms = r["ms"]
+            total = len(ms)
+            line_of = lambda pos: inp.count(b"\n", 0, pos)
+            blocks, last_line = [], None        # blocks of matches whose line ranges touch or overlap
+            for (a, b) in ms:
+                la, lb = line_of(a), line_of(b - 1)
+                if blocks and la <= last_line + 1:
+                    blocks[-1] += 1
+                else:
+                    blocks.append(1)
+                last_line = max(lb, last_line if last_line is not None else lb)
+            cum, hi = 0, total
+            for c in blocks:
+                cum += c
+                if cum >= min(n, total):
+                    hi = cum
+                    break
+            txt = so.strip()
+            got = int(txt) if txt.isdigit() else (0 if txt == b"" else -1)
+            if min(n, total) <= got <= hi:
+                chk.validated += 1
+                if hi < total:
+                    chk.nontrivial_case(json.dumps(["mlmax", r["scn"]["u"], r["scn"]["o"], r["scn"]["inp"], n]))
+            else:
+                chk.violation({"variant": "ml_maxcount", "pattern": rr.render(r["scn"]["u"]), "n": n, "opts": sorted(k for k, v in r["scn"]["o"].items() if v)},
+                              {"why": "rg -U -c -m %d prints %r; the matches are %s (blocks of %s), so the count must lie in %d..%d" % (n, so[:40], ms, blocks, min(n, total), hi),
+                               "args": j["args"][:-1], "input": list(inp), "ml": True})
+    finally:
+        scr.close()
+
+
 def replay(path):
+    import json
+    rec = json.load(open(path))
+    if rec["sig"].get("variant") == "ml_maxcount":
+        import rgrun
+        scr = rgrun.Scratch("c16r")
+        try:
+            f = scr.write("f", bytes(rec["record"]["input"]))
+            rc, so, se = rgrun.run_many([{"args": rec["record"]["args"] + [f]}])[0]
+        finally:
+            scr.close()
+        print(json.dumps({"args": rec["record"]["args"], "count_now": so.decode("latin1").strip(), "why_then": rec["record"]["why"]}, indent=1))
+        import re
+        m = re.search(r"lie in (\d+)\.\.(\d+)", rec["record"]["why"])
+        txt = so.strip()
+        got = int(txt) if txt.isdigit() else 0
+        if not (int(m.group(1)) <= got <= int(m.group(2))):
+            print("VIOLATION property=C16 replay=%s" % path)
+            return 1
+        print("replay: property holds on this scenario now")
+        return 0
     return sc.replay_file(path)
